@@ -153,6 +153,20 @@ func (e *Engine) collectFuncs() {
 			}
 		}
 	}
+	// external functions called from the package (assumed contracts may name them)
+	for _, f := range sortedFuncs(e.funcs) {
+		for _, b := range f.Blocks {
+			for _, in := range b.Instrs {
+				if c, ok := in.(*ssa.Call); ok {
+					if cal, ok := c.Call.Value.(*ssa.Function); ok && cal.Pkg != e.spkg && cal.Parent() == nil {
+						if _, dup := e.funcs[fnDisplayName(cal)]; !dup {
+							e.funcs[fnDisplayName(cal)] = cal
+						}
+					}
+				}
+			}
+		}
+	}
 	// stable function ids
 	names := sortedKeys(e.funcs)
 	for i, n := range names {
@@ -316,6 +330,9 @@ func (e *Engine) parseContracts() {
 		for _, cg := range f.Comments {
 			for _, c := range cg.List {
 				t := c.Text
+				if strings.HasPrefix(t, "// @") { // gofmt rewrites //@ in doc comments
+					t = "//@" + t[4:]
+				}
 				if strings.HasPrefix(t, "//@") {
 					lines = append(lines, rawLine{strings.TrimRight(t[3:], " \t"), e.fset.Position(c.Pos())})
 				}
@@ -664,3 +681,11 @@ func (e *Engine) parseUninterp(l rawLine, rest string, perr func(rawLine, string
 }
 
 var _ = ast.Inspect
+
+func sortedFuncs(m map[string]*ssa.Function) []*ssa.Function {
+	var out []*ssa.Function
+	for _, k := range sortedKeys(m) {
+		out = append(out, m[k])
+	}
+	return out
+}
